@@ -15,7 +15,7 @@ ASSUMPTIONS = [
     "itself is atomic (C12); here persistence is the abstract 'disk := persisted projection'",
     "Model/Gateway.lean mirrors __init__.py / handler.py / sensor.py / ota.py (sampled by the correspondence)",
 ]
-CFG = {"kinds": ["base", "base", "tcp", "mqtt", "base-nocb", "mqtt-nocb"], "quick": 260, "thorough": 6000, "persist": ["json", "pickle"], "lengths": [10, 20, 35],
+CFG = {"kinds": ["base", "base", "tcp", "mqtt", "base-nocb", "mqtt-nocb", "base-raisecb", "tcp-raisecb"], "quick": 260, "thorough": 6000, "persist": ["json", "pickle"], "lengths": [10, 20, 35],
        "bias": {"save": 2.5, "restart": 3, "idreq": 3}, "malformed": 0.1}
 
 
